@@ -37,6 +37,8 @@ ENCODINGS = [
     ("int-minus5-3", (-5, 3), 99, int),
     # (the NaN sentinel as a numpy scalar - what `y[i]` or `y.dtype.type("nan")` gives; np.float64 subclasses float)
     ("float-npnan", (0.0, 1.0), np.float64("nan"), float),
+    # (class names of different lengths: while the longer one is unobserved the label array is narrower than it)
+    ("str-bee-cicada", ("bee", "cicada"), "nan", str),
 ]
 
 
@@ -456,6 +458,15 @@ def main(tier="quick", seed=0):
             rest = [int(j) for j in rng.permutation(np.arange(1, len(encs_all))) if int(j) != forced][:k - 2]
             pick = [encs_all[0], encs_all[forced]] + [encs_all[j] for j in rest]
             jobs.append(("pool", e.name, pool[int(i)], int(rng.integers(0, 1000)), n_ % 2, pick))
+    # cold starts (no label yet: the string label array is as narrow as the sentinel, narrower than the class names,
+    # and the models break their ties at random, so every declared class is predicted somewhere)
+    cold = [s for s in scenarios if not s["labeled"] and s["n"] >= 3]
+    enc_by_name = {e[0]: e for e in encs_all}
+    for e in ENTRIES.values():
+        pool = [s for s in cold if pc.applicable(e, s)]
+        for i in rng.choice(len(pool), size=min({1: 3, 2: 3, 3: 1}[e.cost] if quick else 12, len(pool)), replace=False):
+            jobs.append(("pool", e.name, pool[int(i)], int(rng.integers(0, 1000)), 0,
+                         [encs_all[0], enc_by_name["str-bee-cicada"], enc_by_name["str-a-b"]]))
     # larger seeded pools (6-10 samples), mostly with an index list that leaves unlabeled samples among the
     # non-candidates: code that looks at the labels of "the other samples" meets the sentinel only there
     # (both classes labeled, points in general position: the regime in which a miscounted class / an extra
